@@ -127,6 +127,17 @@ def run(tier, seed):
     nshapes = len(shapes)
     for i, x in enumerate(shapes):
         texts.append(("shape:%d" % i, x["text"], None))
+    # expression forms x expression positions (the second space of FmtShapes.tla), with and without a trailing comment
+    pos = common.tlc_values(sh, "POSITIONS")[0]
+    ptexts = [c.replace("$E", e, 1) for c in sorted(pos["c"]) for e in sorted(pos["e"])]
+    ptexts += [t.split("\n", 1)[0] + " # c1\n" + t.split("\n", 1)[1] for t in ptexts]
+    # ... and with non-ASCII identifiers and string contents in front of whatever follows on the line (byte offsets differ from columns)
+    ptexts += [re.sub(r"\bx\b", "ñ日", t).replace("'s'", "'é😀'").replace("print", "print 'ö',") for t in ptexts if re.search(r"\bx\b|'s'|print", t)]
+    npos_all = len(ptexts)
+    if quick:
+        ptexts = rng.sample(ptexts, 2400)
+    for i, t in enumerate(ptexts):
+        texts.append(("pos:%d" % i, t, None))
     if not quick:
         for s in corpus.sources():
             for k, v in enumerate(corpus.token_neighbourhood(s["src"], rng, 6)):
@@ -244,9 +255,9 @@ def run(tier, seed):
     rep.coverage = {
         "evaluations": len(jobs), "distinct_nontrivial": formatted,
         "rule": "inputs: corpus (%d texts), generated programs of all KotoCore families in random layouts with comments (some with "
-                "non-ASCII identifiers and string contents), %d block-position shapes of FmtShapes.tla (headers x bodies x comment decorations)%s; options: default plus %s of the 72-point grid line_length {20,40,60,100,160,255} x "
+                "non-ASCII identifiers and string contents), %d block-position shapes of FmtShapes.tla (headers x bodies x comment decorations) and %d of its %d expression-position texts%s; options: default plus %s of the 72-point grid line_length {20,40,60,100,160,255} x "
                 "indent_width {2,4} x chain_break_threshold {0,2,4} x always_indent_arms; counted: (text, options) pairs in the domain (nothing needs breaking: every line of the layout for line_length 255 fits)" % (
-                    len(corpus.sources()), nshapes, "" if quick else ", corpus token neighbourhood", "1 random point" if quick else "4 random points"),
+                    len(corpus.sources()), nshapes, len(ptexts), npos_all, "" if quick else ", corpus token neighbourhood", "1 random point" if quick else "4 random points"),
         "samples": [{"input": texts[-1][1][:400]}],
         "states": st["states"] + tl.distinct, "transitions": st["transitions"] + tl.states_generated,
         "traces_validated_against_impl": len(traces), "meaning_reruns": len(rerun), "format_traces_rejected": nbad,
